@@ -312,6 +312,7 @@ def _same_log(a, b):
 MEMBERS = int(os.environ.get("XH_MEMBERS", "2"))
 BODY_RAISE = os.environ.get("XH_BODY_RAISE") == "1"
 NMIN, NMAX = int(os.environ.get("XH_NMIN", "0")), int(os.environ.get("XH_NMAX", "4"))
+KFIRST = int(os.environ.get("XH_KFIRST", "-1"))  # optional case split on the first notification kind
 _FAIL_EXC = ValueError("reported failure")
 
 
@@ -327,6 +328,7 @@ def c15_composite(n: int, k0: int, x0: int, k1: int, x1: int, k2: int, x2: int, 
 
     pre: 0 <= NMIN <= n <= NMAX <= 4
     pre: 0 <= k0 <= 3 and 0 <= k1 <= 3 and 0 <= k2 <= 3 and 0 <= k3 <= 3
+    pre: KFIRST < 0 or k0 == KFIRST
     post: _
     """
     begin()
@@ -498,6 +500,34 @@ try:
 
     _realize = _xc.realize  # identity on concrete values
 
+    def _points(s):
+        """Code points of a concrete or CrossHair string as a list of int / SymbolicInt (call untraced); None = unknown."""
+        if type(s) is str:
+            return [ord(ch) for ch in s]
+        if isinstance(s, _xb.LazyIntSymbolicStr) and not isinstance(s._codepoints, _xb.SymbolicBoundedIntTuple):
+            return list(s._codepoints)
+        return None
+
+    def contains(hay, needle):
+        """`needle in hay`, fast for a long, mostly concrete CrossHair string: positions that are ruled out by two
+        concrete characters are skipped natively; the remaining candidates are compared symbolically (traced) exactly
+        as CrossHair's own AbcString.partition does.  Validated against `in` by the condition c20_contains_model."""
+        if not _is_tracing():
+            return needle in hay
+        with _NoTracing():
+            h, n = _points(hay), _points(needle)
+            cands = None
+            if h is not None and n is not None and len(n) > 0:
+                k = len(n)
+                cands = [i for i in range(len(h) - k + 1)
+                         if all(type(a) is not int or type(b) is not int or a == b for a, b in zip(h[i:i + k], n))]
+        if cands is None:
+            return needle in hay
+        for i in cands:
+            if all(a == b for a, b in zip(h[i:i + k], n)):
+                return True
+        return False
+
     def _untraced():
         return _NoTracing() if _is_tracing() else W._Null()
 
@@ -508,6 +538,9 @@ except ImportError:  # plain concrete run without crosshair installed
 
     def _untraced():
         return W._Null()
+
+    def contains(hay, needle):
+        return needle in hay
 
 
 class Opaque:
@@ -591,7 +624,10 @@ def progress_oracle(c, f, r, t):
     return base + suffix
 
 
-OBS = os.environ.get("XH_OBS", "ch")  # which text renderers run traced in c20_counts: c(onsole) h(tml)
+# which renderers c20_counts runs: c(onsole, traced) h(tml document builder, traced) u(ntraced: HtmlProgressObserver._render
+# incl. utf-8 encoding and IPythonProgressObserver._render on the realised counts -- realising makes the solver enumerate
+# the count values one by one, so 'u' conditions carry a small XH_MAXT)
+OBS = os.environ.get("XH_OBS", "ch")
 
 
 def _check_renderings(state, want, excs, nei, native=False):
@@ -607,8 +643,10 @@ def _check_renderings(state, want, excs, nei, native=False):
         return False
     if "h" in OBS and not _check_html(state, want, excs):
         return False
-    with _untraced():
-        return _check_untraced(state, excs, nei)
+    if "u" in OBS:
+        with _untraced():
+            return _check_untraced(state, excs, nei)
+    return True
 
 
 KW = dict(initial_update_delay=0, min_update_interval=0, max_update_interval=0)
@@ -653,14 +691,14 @@ def _check_html(state, want, excs):
         return False
     for section in ("stale", "run"):
         for scope, (ps, es, base, f) in (want.get(section) or {}).items():
-            if base not in doc:  # digits, blanks and ( + ) / only: nothing for HTML escaping to change
+            if not contains(doc, base):  # digits, blanks and ( + ) / only: nothing for HTML escaping to change
                 return False
-            if f >= 1 and (">" + _digits(f) + " failed</span>") not in doc:
+            if f >= 1 and not contains(doc, ">" + _digits(f) + " failed</span>"):
                 return False
-            if ("<td>" + _esc(_scope_str(scope, zw=True)) + "</td>") not in doc:
+            if not contains(doc, "<td>" + _esc(_scope_str(scope, zw=True)) + "</td>"):
                 return False
     for i in range(len(excs)):
-        if ("Exception %d; %s\n" % (i + 1, _esc(_scope_str(excs[i][0])))) not in doc:
+        if not contains(doc, "Exception %d; %s\n" % (i + 1, _esc(_scope_str(excs[i][0])))):
             return False
     return True
 
@@ -755,6 +793,7 @@ def c20_kinds(k00: int, v00: int, k01: int, v01: int, k10: int, v10: int, k11: i
 
 # ---- c20_counts: symbolic counts
 MAXT = int(os.environ.get("XH_MAXT", "9"))
+NSYM = int(os.environ.get("XH_NSYM", "3"))
 COUNT_SCOPES = [(0, "a.b"), (OPAQUES[0], "<&"), (OPAQUES[1],)]
 COUNT_ELAPSED = [(0, "0s"), (65.2, "1m05s"), (5.5, "5s")]
 
@@ -771,11 +810,18 @@ def c20_counts(c0: int, f0: int, r0: int, t0: int, c1: int, f1: int, r1: int, t1
     post: _
     """
     begin()
-    nei = _pin(nei, 0, NEXC)
+    nei = _pin(nei, 0, NEXC) if ("c" in OBS or "u" in OBS) else 0  # the HTML document shows every exception
     cnt = [(c0, f0, r0, t0), (c1, f1, r1, t1), (c2, f2, r2, t2)]
+    for i in range(NSYM, NSC):  # scopes beyond the first XH_NSYM take concrete counts from the pattern table
+        cnt[i] = PATTERNS[(i + PAT) % len(PATTERNS)][:4]
     run, want = {}, {}
     for i in range(NSC):
         c, f, r, t = cnt[i]
+        if "h" in OBS and i < NSYM:
+            # the HTML bar widths are 100 * count / total: a symbolic divisor makes the path condition nonlinear (z3 gives
+            # up, CrossHair reports 'Not confirmed'), so the total is case split inside the path for the HTML builder
+            t = _pin(t, 1, MAXT)
+            cnt[i] = (c, f, r, t)
         we, es = COUNT_ELAPSED[i]
         run[COUNT_SCOPES[i]] = _SPO.ScopeState(completed=c, failed=f, running=r, total=t, weighted_elapsed=we)
         base, suffix = progress_parts(c, f, r, t)
@@ -783,6 +829,7 @@ def c20_counts(c0: int, f0: int, r0: int, t0: int, c1: int, f1: int, r1: int, t1
     state, wants = {"run": run}, {"run": want}
     if STALE:
         sscope = (FN, ST)
+        c0, f0, r0, t0 = cnt[0]
         state["stale"] = {sscope: _SPO.ScopeState(completed=c0, failed=f0, running=r0, total=t0, weighted_elapsed=0)}
         base, suffix = progress_parts(c0, f0, r0, t0)
         wants["stale"] = {sscope: (base + suffix, "0s", base, f0)}
@@ -826,3 +873,142 @@ def c20_elapsed(e: int) -> bool:
     if got != want:
         return False
     return ok()
+
+
+def c20_contains_model(a: int, b: int, c: int, pick: int) -> bool:
+    """
+    The harness' fast substring test agrees with CrossHair's own `in` on strings with symbolic digits.
+
+    pre: 0 <= a <= 9 and 0 <= b <= 9 and 0 <= c <= 9 and 0 <= pick <= 3
+    post: _
+    """
+    begin()
+    hay = "<td>" + _digits(a) + " / " + _digits(b) + "</td><td>(" + _digits(b) + " + " + _digits(c) + ") / 7</td>"
+    needle = [_digits(a) + " / " + _digits(b), "(" + _digits(c) + " + " + _digits(c) + ") / 7", _digits(c) + " / 7<",
+              "1 / 2"][_pin(pick, 0, 3)]
+    if contains(hay, needle) != (needle in hay):
+        return False
+    return ok()
+
+
+def c20_format_model(x: int, two: bool) -> bool:
+    """
+    The symbolic stand-in for format(int, '') / format(int, '02') under CrossHair agrees with CPython's on the realised value.
+
+    pre: 0 <= x <= 120
+    post: _
+    """
+    begin()
+    sym = _two(x) if two else _digits(x)
+    with _untraced():
+        cx = _realize(x)
+        if _realize(sym) != (format(cx, "02") if _realize(two) else format(cx, "")):
+            return False
+    return ok()
+
+
+# ============================================================================================== concrete sanity (no CrossHair)
+class StateObs(_SPO.SimpleProgressObserver):
+    """The library's own State bookkeeping (update thread running, nothing rendered)."""
+
+    def __init__(self):
+        super().__init__(initial_update_delay=3600, min_update_interval=3600, max_update_interval=3600)
+
+    def _render(self, state, new_exception_index, exception_tuples, elapsed):
+        return None
+
+    def _output(self, value):
+        pass
+
+
+def _sanity_c15():
+    import itertools
+
+    import shapes
+    import uberjob._execution.run_function_on_graph as rfg
+
+    global SHAPE
+    n_state = n_engine = 0
+    for sh in shapes.QUICK:
+        SHAPE = sh
+        n = sh.n
+        for P in itertools.product([False, True], repeat=n):
+            P = [P[j] or (sh.roles[j] == "src" and not sh.preds[j]) for j in range(n)]
+            for TT in ([10, 20, 30, 40][:n], [40, 30, 20, 10][:n]):
+                for S in ((0, 0, 0), (0, 1, 0), (1, 1, 0)):
+                    SC = _scopes(0, *S, n)
+                    logs = []
+                    for engine, workers in (("seq", 1), ("real", 1), ("real", 2)):
+                        W._caching.run_function_on_graph = W.seq_engine if engine == "seq" else rfg.run_function_on_graph
+                        W._rp.run_function_on_graph = W.seq_engine if engine == "seq" else rfg.run_function_on_graph
+                        w = W.World(W.NOW)
+                        b = build_scoped(sh, w, list(P), list(TT), SC)
+                        rec, so = Rec(), StateObs()
+                        uberjob.run(b.plan, registry=b.reg, output=b.nodes[sh.out] if sh.out is not None else None,
+                                    progress=(Progress(lambda: rec), Progress(lambda: so)), max_workers=workers)
+                        acc = account(rec.log, sequential=(engine == "seq"))
+                        assert acc is not None, (sh.name, P, TT, S, engine, rec.log)
+                        tot, comp, fail = acc
+                        # (a) the harness' reading of the log == the library's own State after the same notifications
+                        lib = {(sec, sc): (s.total, s.completed, s.failed, s.running)
+                               for sec, m in so._state.section_scope_mapping.items() for sc, s in m.items()}
+                        mine = {k: (tot[k], comp.get(k, 0), fail.get(k, 0), 0) for k in tot}
+                        assert lib == mine, (sh.name, lib, mine)
+                        n_state += 1
+                        logs.append(sorted((e[:3] for e in rec.log[1:-1]), key=repr))
+                    # (b) the sequential stand-in produces the same notifications as the real engine (any order)
+                    assert logs[0] == logs[1] == logs[2], (sh.name, P, TT, S)
+                    n_engine += 2
+    W.install_engine()
+    return {"recorder_vs_library_State": n_state, "seq_engine_vs_real_engine_runs": n_engine}
+
+
+def _sanity_c20():
+    import io
+
+    n_models = n_misc = 0
+    kw = KW
+    states = []
+    for pat in range(len(PATTERNS)):
+        run = {}
+        for i, sc in enumerate(COUNT_SCOPES):
+            c, f, r, t, we, _ps, _es = PATTERNS[(i + pat) % len(PATTERNS)]
+            run[sc] = _SPO.ScopeState(completed=c, failed=f, running=r, total=t, weighted_elapsed=we)
+        states.append({"run": run, "stale": {(FN, ST): _SPO.ScopeState(completed=1, total=1)}})
+    for st in states:
+        for excs in ([], [(COUNT_SCOPES[0], EXCS[0])], [(COUNT_SCOPES[0], EXCS[0]), (COUNT_SCOPES[1], EXCS[1])]):
+            for nei in range(len(excs) + 1):
+                install_models(True)
+                a = _CON.ConsoleProgressObserver(**kw)._render(st, nei, excs, ELAPSED)
+                install_models(False)
+                _CON.dt = _FixedDatetimeModule  # keep the date fixed; print / StringIO / time are the real ones now
+                assert _CON.print is print and _CON.StringIO is io.StringIO
+                b = _CON.ConsoleProgressObserver(**kw)._render(st, nei, excs, ELAPSED)
+                install_models(True)
+                assert a == b and len(a) > 40, (a, b)
+                n_models += 1
+    # Opaque really is unorderable / hashable / equatable, with the default str()
+    try:
+        sorted(OPAQUES)
+        raise AssertionError("Opaque is orderable")
+    except TypeError:
+        pass
+    assert OPAQUES[0] != OPAQUES[1] and OPAQUES[0] == Opaque(0) and len({OPAQUES[0], Opaque(0), OPAQUES[1]}) == 2
+    assert str(OPAQUES[0]).startswith("<") and "Opaque object at" in str(OPAQUES[0])
+    n_misc += 3
+    # float inputs of get_elapsed_string are truncated first: same string as the int
+    for e in list(range(0, 7300, 7)) + [35999, 36000, 359999, 86399, 35999999]:
+        for frac in (0.0, 0.25, 0.999):
+            assert _SPO.get_elapsed_string(e + frac) == _SPO.get_elapsed_string(e), e
+            n_misc += 1
+    # pattern table: the literal expected strings are what the oracle functions compute
+    for c, f, r, t, we, ps, es in PATTERNS:
+        assert progress_oracle(c, f, r, t) == ps
+        n_misc += 1
+    return {"print_StringIO_models_vs_real": n_models, "opaque_float_pattern_checks": n_misc, "ipywidgets": HAVE_IPY}
+
+
+def sanity(pid):
+    import json
+
+    print(json.dumps(_sanity_c15() if pid == "C15" else _sanity_c20()))
